@@ -50,6 +50,17 @@ def sweep(tkey, cname, unit=None, lo_hi=None, unit_how="attr"):
             setattr(m, u.attr, u.members[unit])
         elif unit_how == "set_raw":          # the path the file reader uses
             m.set_raw(u.attr, u.members[unit])
+        elif unit_how == "after-refused":
+            # requests the library REFUSES come first (a stored word that names no unit, an out-of-range value for the
+            # dependant): a refusal leaves no trace, the unit chosen afterwards decides the range
+            for req in (lambda: m.set_raw(u.attr, max(u.members.values()) + 7),
+                        lambda: setattr(m, c.attr, max(hi_ for _lo, hi_ in c.ranges.values()) + 1000),
+                        lambda: m.set_raw(u.attr, -5)):
+                try:
+                    req()
+                except Exception:
+                    pass
+            setattr(m, u.attr, u.members[unit])
         elif unit_how.startswith("truncated-file"):
             # a file whose CVAL list stops BEFORE the unit controller (older layout) is loaded, THEN the unit is chosen
             import rv.api as rv
@@ -433,6 +444,8 @@ def run(ctx):
                         tasks.append((tkey, c.name, u, a, b, "clone"))
                         if a == lo:
                             tasks.append((tkey, c.name, u, a, min(b, a + 64), "truncated-file-0"))
+                            tasks.append((tkey, c.name, u, a, min(b, a + 64), "after-refused"))
+                            tasks.append((tkey, c.name, u, max(a, hi - 64), hi, "after-refused"))
                             tasks.append((tkey, c.name, u, a, min(b, a + 64), "truncated-file-k"))
                     a = b + 1 if b == hi else b
     for tkey in spec.types():
